@@ -139,6 +139,36 @@ def disjoint_block_cases(rng, n):
     return out
 
 
+def reindex_cases(run, rng):
+    """K2, exhaustive: flox.core.reindex_ for EVERY ordered subset `from_` of {0..3} (the labels a block / cohort found, in any order) and
+    every ordered subset `to` of {0..4} of size <= 3, plus `to` = RangeIndex(1..5), vs Reindex.reindex"""
+    import itertools
+
+    import numpy as np
+    import pandas as pd
+
+    import flox.core as fc
+    from tools.props.c07 import eval_simple
+
+    froms = [p for k in range(1, 5) for p in itertools.permutations(range(4), k)]
+    tos = [("index", p) for k in range(1, 4) for p in itertools.permutations(range(5), k)] + [("range", tuple(range(n))) for n in range(1, 6)]
+    coq = []
+    for fr in froms:
+        vals = np.array([10 + 7 * x for x in fr], dtype="int64")
+        for kind, to in tos:
+            idx = pd.RangeIndex(len(to)) if kind == "range" else pd.Index(list(to))
+            try:
+                out = fc.reindex_(vals, np.array(fr), idx, fill_value=-1)
+            except Exception as e:  # noqa: BLE001
+                run.violation({"property": "C05", "kind": f"reindex_ raised {type(e).__name__}: {str(e)[:100]}", "from_": list(fr), "to": list(to), "to_kind": kind}, tag="reindex")
+                continue
+            run.count(f"reindex|{fr}|{kind}|{to}", tuple(fr) != tuple(to))
+            z = lambda xs: C.list_lit([C.zlit(int(x)) for x in xs])  # noqa: E731
+            coq.append(f"({z(fr)}, {z(to)}, {z(vals)}, (-1), {z(np.asarray(out).reshape(-1))})")
+    run.extra["reindex_cases (exhaustive ordered subsets)"] = len(coq)
+    eval_simple(run, "reindex", "reindex_case_ok", coq, "correspondence:K2 Reindex.reindex == flox.core.reindex_ (every ordered from_ x every ordered to, Index and RangeIndex)")
+
+
 def nontrivial(case):
     labs = {x for x in case["labels"] if x != "nan"}
     ex = set(case["expected"])
@@ -151,6 +181,7 @@ def run(run: C.Run):
     cases = F.corpus("C05") + gen_cases(rng, 6000 if run.tier == "thorough" else 1600) + wide_cases(rng, 1500 if run.tier == "thorough" else 250) \
         + disjoint_block_cases(rng, 1500 if run.tier == "thorough" else 300)
     R.check_reduce_cases(run, cases, "C05", nontrivial, grouped_fn=grouped_fn, vs_eager=False, full=True)
+    reindex_cases(run, rng)
     if not proofs_ok and not run.violations:
         run.violation({"property": "C05", "kind": "proof obligation no longer checks", "failed": P.failed_obligations(run)},
                       nofail=True, tag="obligation")
